@@ -55,9 +55,14 @@ def run(spec):
             ok, s = apimon.call(rec, 'Script', jedi.Script, text, path=path, project=project, witness=w)
             if not ok:
                 continue
-            ok, comps = apimon.call(rec, 'complete', s.complete, p['line'] + 1, len(p['var']) + 1, witness=w)
+            with apimon.LimitWatch() as lw:
+                ok, comps = apimon.call(rec, 'complete', s.complete, p['line'] + 1, len(p['var']) + 1,
+                                        witness=w)
             s = None
             if not ok:
+                continue
+            if lw.hits:
+                rec.ev('c04c:receivers_inconclusive_give_up_limit_hit')
                 continue
             receivers += 1
             rec.ev('c04c:receivers_checked')
